@@ -1,9 +1,11 @@
 /-
   C08 — Find reaches exactly the addressed node, and paths render back to it.
-  This file: the text codec of paths (escaping, splitting) and lookup by key.
+  This file: the text codec of paths (escaping, splitting), lookup by key, and the walk of Find over schema
+  and data (Model/Find.lean: parseUrlPath's schema check and findSlice) against the node an address names.
 -/
 import YangVerif.Proofs.Path
 import YangVerif.Proofs.Data
+import YangVerif.Proofs.Find
 namespace YangVerif.C08
 open YangVerif.Path
 
@@ -60,6 +62,100 @@ theorem legacy_render_witness :
 /-- lookup by key: present keys are found with their entry, absent keys give nothing -/
 theorem find_entry_exact (rows : List (Data.Key × List Data.Data)) (k : Data.Key) :
     ((Data.findRow k rows).isSome = true ↔ k ∈ Data.keysOf rows) := Data.findRow_isSome_iff k rows
+
+/-! ### the walk: Find against the node an address names (`Find.Reach`) -/
+
+section walk
+open YangVerif.Find YangVerif.Data
+
+/-- **Find reaches the addressed node**: for every tree of any depth whose lists have unique keys and every
+    address that names a node of it (a container, a list, a list entry at any depth, a leaf), Find returns
+    exactly that node -/
+theorem find_reaches_addressed (ks : List Schema) (b : List Data) (p : List Find.Seg) (l : Loc)
+    (hu : uniqueKeysBody b = true) (h : Reach ks b p l) : find ks b p = .found l := by
+  unfold find; rw [reach_check h]; exact reach_walk h hu
+
+/-- **and nothing else**: whatever Find returns is a node the path names — never a sibling, a neighbour's
+    entry or a node of another level (no hypothesis on the keys) -/
+theorem find_only_addressed (ks : List Schema) (b : List Data) (p : List Find.Seg) (l : Loc)
+    (h : find ks b p = .found l) : Reach ks b p l := by
+  unfold find at h
+  cases hc : checkSegs ks p with
+  | none => rw [hc] at h; exact walk_reach p ks b l hc h
+  | some r => rw [hc] at h; cases r <;> simp at h
+
+/-- an address names at most one node when keys are unique -/
+theorem address_names_one_node (ks : List Schema) (b : List Data) (p : List Find.Seg) (l₁ l₂ : Loc)
+    (hu : uniqueKeysBody b = true) (h₁ : Reach ks b p l₁) (h₂ : Reach ks b p l₂) : l₁ = l₂ := by
+  have e₁ := find_reaches_addressed ks b p l₁ hu h₁
+  have e₂ := find_reaches_addressed ks b p l₂ hu h₂
+  rw [e₁] at e₂; injection e₂
+
+/-- a path that names nothing finds nothing: absent containers, absent keys, unknown names and malformed
+    steps never yield a selection -/
+theorem find_nothing_when_absent (ks : List Schema) (b : List Data) (p : List Find.Seg)
+    (h : ¬ ∃ l, Reach ks b p l) : ∀ l, find ks b p ≠ .found l :=
+  fun l e => h ⟨l, find_only_addressed ks b p l e⟩
+
+/-- "not found" is a verdict about the schema alone: it does not depend on the data at all -/
+theorem not_found_is_schema_only (ks : List Schema) (b b' : List Data) (p : List Find.Seg) :
+    find ks b p = .notFound ↔ find ks b' p = .notFound := by
+  have key : ∀ x : List Data, find ks x p = .notFound ↔ checkSegs ks p = some .notFound := by
+    intro x
+    unfold find
+    cases hc : checkSegs ks p with
+    | none => simp [walk_ne_notFound]
+    | some r => cases r <;> simp
+  rw [key b, key b']
+
+/-- what Find selects is shaped by the schema it reports for it -/
+theorem found_conforms (ks : List Schema) (b : List Data) (p : List Find.Seg) (ks' : List Schema) (b' : List Data)
+    (hc : conformsBody ks b = true) (h : find ks b p = .found (.body ks' b')) : conformsBody ks' b' = true := by
+  unfold find at h
+  cases hcs : checkSegs ks p with
+  | none => rw [hcs] at h; exact walk_conforms p ks b ks' b' hc h
+  | some r => rw [hcs] at h; cases r <;> simp at h
+
+/-- text to node: the rendered path of an address parses back to the same steps (`parse_render`), so Find of
+    the *text* of an address reaches the node the address names -/
+theorem find_of_rendered_path (segs : List Path.Seg) (hok : ∀ s ∈ segs, SegOK s)
+    (resolve : List Path.Seg → List Find.Seg) (ks : List Schema) (b : List Data) (l : Loc)
+    (hu : uniqueKeysBody b = true) (h : Reach ks b (resolve segs) l) :
+    (parsePath (renderPath segs)).map (fun sg => find ks b (resolve sg)) = some (.found l) := by
+  rw [parse_render segs hok]; simp [find_reaches_addressed ks b (resolve segs) l hu h]
+
+/-! #### non-vacuity: a list in a list entry, a container in it, compound key -/
+def exKs : List Schema := [.leaf none, .list 2 [.leaf none, .leaf none, .cont [.leaf (some "d")], .list 1 [.leaf none]]]
+def exB : List Data :=
+  [.leaf (some "x"),
+   .list [(["a", "1"], [.leaf (some "a"), .leaf (some "1"), .cont none, .list []]),
+          (["a/b", "2"], [.leaf (some "a/b"), .leaf (some "2"), .cont (some [.leaf none]),
+                          .list [(["k"], [.leaf (some "k")])]])]]
+
+example : uniqueKeysBody exB = true ∧ conformsBody exKs exB = true := by decide
+example : Reach exKs exB [⟨1, ["a/b", "2"]⟩, ⟨3, ["k"]⟩] (.body [.leaf none] [.leaf (some "k")]) := by
+  refine .entry exKs exB 1 2 _ _ ["a/b", "2"]
+    [.leaf (some "a/b"), .leaf (some "2"), .cont (some [.leaf none]), .list [(["k"], [.leaf (some "k")])]]
+    _ _ rfl rfl (by simp) rfl (by simp) ?_
+  exact .entry _ _ 3 1 _ _ ["k"] [.leaf (some "k")] _ _ rfl rfl (by simp) rfl (by simp) (.here _ _)
+/-- tests of the model's verdicts, labelled as tests: default of an unset leaf, absent container, absent key,
+    unknown name, key on a container, wrong number of components, a step below a leaf, a keyless list in the middle -/
+example : (match find exKs exB [⟨1, ["a/b", "2"]⟩, ⟨2, []⟩, ⟨0, []⟩] with | .found (.leaf (some "d")) => true | _ => false) = true := by decide
+example : (match find exKs exB [⟨1, ["a", "1"]⟩, ⟨2, []⟩] with | .none => true | _ => false) = true := by decide
+example : (match find exKs exB [⟨1, ["zz", "1"]⟩] with | .none => true | _ => false) = true := by decide
+example : (match find exKs exB [⟨7, []⟩] with | .notFound => true | _ => false) = true := by decide
+example : (match find exKs exB [⟨1, ["a/b", "2"]⟩, ⟨2, ["k"]⟩] with | .bad => true | _ => false) = true := by decide
+example : (match find exKs exB [⟨1, ["a"]⟩] with | .bad => true | _ => false) = true := by decide
+example : (match find exKs exB [⟨0, []⟩, ⟨0, []⟩] with | .bad => true | _ => false) = true := by decide
+example : (match find exKs exB [⟨1, []⟩, ⟨0, []⟩] with | .bad => true | _ => false) = true := by decide
+
+/-- with two entries under one key (a store that broke C18) the walk still returns a node of that address: the first -/
+theorem duplicate_key_witness :
+    (match walk [.list 1 [.leaf none, .leaf none]]
+        [.list [(["k"], [.leaf (some "k"), .leaf (some "1")]), (["k"], [.leaf (some "k"), .leaf (some "2")])]] [⟨0, ["k"]⟩] with
+     | .found (.body _ [_, .leaf (some "1")]) => true | _ => false) = true := by decide
+
+end walk
 
 /-! #### non-vacuity -/
 example : SegOK ⟨[108, 105], [[97, 47, 98], [44, 61, 37, 43, 32, 233]]⟩ := by
